@@ -192,4 +192,107 @@ ScalarVerdict(node, v, enums) ==
   ELSE LET k == KindVerdict(node, v) IN
        IF k = "reject" THEN "reject"
        ELSE And3({k} \cup {RuleVerdict(node, node.rules[i], v, enums) : i \in DOMAIN node.rules})
+
+-----------------------------------------------------------------------------------
+(* C03: type references, or, allOf, additionalProperties, key shortcuts - set operations. *)
+(* Rule values for references:  [t:"tref", s:"@T"]  (a user type name; rendered quoted).   *)
+(* Keys are code-point sequences so that a key shortcut's string type can judge them.      *)
+Or3(S) == IF "accept" \in S THEN "accept" ELSE IF "unspec" \in S THEN "unspec" ELSE "reject"
+HasType(env, name) == \E i \in DOMAIN env.types : env.types[i].name = name
+TypeNode(env, name) == env.types[CHOOSE i \in DOMAIN env.types : env.types[i].name = name].n
+
+\* a plain type name used as an or-member or inside an inline rule-set
+KindNameVerdict(tn, v) ==
+  CASE tn = "any"     -> "accept"
+    [] tn = "string"  -> B3(v.t = "str")
+    [] tn = "integer" -> IF v.t # "num" THEN "reject" ELSE LET k == KindOfValue(v) IN IF k = "int" THEN "accept" ELSE IF k = "flt?" THEN "unspec" ELSE "reject"
+    [] tn \in {"float", "decimal"} -> B3(v.t = "num")
+    [] tn = "boolean" -> B3(v.t = "bool")
+    [] tn = "null"    -> B3(v.t = "null")
+    [] tn = "object"  -> IF v.t # "obj" THEN "reject" ELSE IF v.ps = <<>> THEN "accept" ELSE "unspec"
+    [] tn = "array"   -> IF v.t # "arr" THEN "reject" ELSE IF v.items = <<>> THEN "accept" ELSE "unspec"
+    [] tn \in Formats -> IF v.t # "str" THEN "reject" ELSE FormatVerdict(tn, v.c)
+    [] OTHER -> "unspec"
+\* additionalProperties: "<kind>" - one JSON kind (an integer under "float" is not pinned by the statement)
+AddlKindVerdict(tn, v) ==
+  IF tn \in {"float", "decimal"} /\ v.t = "num" /\ KindOfValue(v) = "int" THEN "unspec"
+  ELSE IF tn \in {"object", "array"} THEN B3(v.t = (IF tn = "object" THEN "obj" ELSE "arr"))
+  ELSE IF tn \in Formats THEN B3(v.t = "str")             \* IsEqualSoft: formats are strings, content not checked
+  ELSE KindNameVerdict(tn, v)
+
+ItemsRule(node, name) == N!DigitsToInt(N!TakeDigits(RuleV(node, name).b), 0)
+
+RECURSIVE Acc(_, _, _, _, _), RefUnion(_, _, _, _, _), ObjProps(_, _, _)
+\* own properties followed by the inherited ones (allOf, transitively); seenT guards against allOf cycles
+ParentNames(node) == IF ~HasRule(node, "allOf") THEN <<>>
+                     ELSE LET rv == RuleV(node, "allOf") IN IF rv.t = "tref" THEN <<rv.s>> ELSE [i \in DOMAIN rv.items |-> rv.items[i].s]
+ObjProps(env, node, seenT) ==
+  LET ps == ParentNames(node)
+      inh == [i \in DOMAIN ps |-> IF ps[i] \in seenT \/ ~HasType(env, ps[i]) \/ TypeNode(env, ps[i]).t # "obj" THEN <<>>
+                                     ELSE ObjProps(env, TypeNode(env, ps[i]), seenT \cup {ps[i]})]
+      Flat[k \in 0..Len(ps)] == IF k = 0 THEN <<>> ELSE Flat[k - 1] \o inh[k]
+  IN node.props \o Flat[Len(ps)]
+
+\* union of the named user types at one value position; `seen` = types already unfolded at this position (least fixpoint)
+RefUnion(env, names, v, ko, seen) ==
+  Or3({IF names[i] \in seen \/ ~HasType(env, names[i]) THEN "reject"
+       ELSE Acc(env, TypeNode(env, names[i]), v, ko, seen \cup {names[i]}) : i \in DOMAIN names})
+
+OrMemberVerdict(env, m, v, ko, seen) ==
+  CASE m.t = "tref" -> RefUnion(env, <<m.s>>, v, ko, seen)
+    [] m.t = "id"   -> KindNameVerdict(m.s, v)
+    [] m.t = "set"  -> LET pn == [t |-> "set", rules |-> m.rules] IN
+                       IF v.t = "null" /\ Nullable(pn) THEN "accept"
+                       ELSE IF HasRule(pn, "type") /\ RuleV(pn, "type").t = "tref" THEN RefUnion(env, <<RuleV(pn, "type").s>>, v, ko, seen)
+                       ELSE IF HasRule(pn, "enum") THEN Member3(v, EnumItems(pn, env.enums))
+                       ELSE IF ~HasRule(pn, "type") THEN "unspec"
+                       ELSE And3({KindNameVerdict(TypeName(pn), v)} \cup {RuleVerdict(pn, m.rules[i], v, env.enums) : i \in DOMAIN m.rules})
+    [] OTHER -> "unspec"
+
+KeyMatches(env, tname, k) ==             \* does the string type @K accept the key k ?
+  IF ~HasType(env, tname) THEN "reject" ELSE Acc(env, TypeNode(env, tname), [t |-> "str", c |-> k], FALSE, {tname})
+
+Acc(env, node, v, ko, seen) ==
+  IF IsAny(node) THEN "accept"
+  ELSE IF v.t = "null" /\ Nullable(node) THEN "accept"
+  ELSE IF node.t = "ref" THEN RefUnion(env, node.names, v, ko, seen)
+  ELSE IF HasRule(node, "or") THEN
+         LET ms == RuleV(node, "or").items IN Or3({OrMemberVerdict(env, ms[i], v, ko, seen) : i \in DOMAIN ms})
+  ELSE IF HasRule(node, "type") /\ RuleV(node, "type").t = "tref" THEN RefUnion(env, <<RuleV(node, "type").s>>, v, ko, seen)
+  ELSE CASE node.t = "lit" -> ScalarVerdict(node, v, env.enums)
+         [] node.t = "arr" ->
+              IF v.t # "arr" THEN "reject"
+              ELSE IF node.items = <<>> THEN B3(v.items = <<>>)
+              ELSE And3({Acc(env, node.items[IF i <= Len(node.items) THEN i ELSE Len(node.items)], v.items[i], ko, {}) : i \in DOMAIN v.items}
+                        \cup {B3(HasRule(node, "minItems") => Len(v.items) >= ItemsRule(node, "minItems")),
+                              B3(HasRule(node, "maxItems") => Len(v.items) <= ItemsRule(node, "maxItems"))})
+         [] node.t = "obj" ->
+              IF v.t # "obj" THEN "reject"
+              ELSE LET props == ObjProps(env, node, {})
+                       named == {i \in DOMAIN props : ~props[i].sc}
+                       short == {i \in DOMAIN props : props[i].sc}
+                       KeyVerdict(k, val) ==
+                         IF \E i \in named : props[i].k = k
+                         THEN Acc(env, props[CHOOSE i \in named : props[i].k = k].n, val, ko, {})
+                         ELSE LET ms == {i \in short : KeyMatches(env, props[i].kt, k) = "accept"} IN
+                              \* a key matching several shortcut entries: decided only when the entries agree on the value
+                              IF ms # {} THEN (LET vs == {Acc(env, props[i].n, val, ko, {}) : i \in ms} IN
+                                               IF Cardinality(vs) = 1 THEN CHOOSE x \in vs : TRUE ELSE "unspec")
+                              ELSE IF \E i \in short : KeyMatches(env, props[i].kt, k) = "unspec" THEN "unspec"
+                              ELSE IF ~HasRule(node, "additionalProperties") THEN "reject"
+                              ELSE LET ap == RuleV(node, "additionalProperties") IN
+                                   CASE ap.t = "bool" -> B3(ap.bv)
+                                     [] ap.t = "tref" -> RefUnion(env, <<ap.s>>, val, ko, {})
+                                     [] ap.t = "id"   -> AddlKindVerdict(ap.s, val)
+                                     [] OTHER -> "unspec"
+                       Required(i) == ~Optional(props[i], ko)
+                   IN And3({KeyVerdict(v.ps[j].k, v.ps[j].v) : j \in DOMAIN v.ps}
+                           \cup {B3(\E j \in DOMAIN v.ps : v.ps[j].k = props[i].k) : i \in {x \in named : Required(x)}}
+                           \* a required key-shortcut entry with no matching key: the statement is silent
+                           \cup {IF \E j \in DOMAIN v.ps : /\ KeyMatches(env, props[i].kt, v.ps[j].k) = "accept"
+                                                              /\ \A o \in short \ {i} : KeyMatches(env, props[o].kt, v.ps[j].k) = "reject"
+                                  THEN "accept" ELSE "unspec" : i \in {x \in short : Required(x)}})
+         [] OTHER -> "reject"
+Verdict(env, node, v, ko) == Acc(env, node, v, ko, {})
+Code3(x) == IF x = "accept" THEN 1 ELSE IF x = "reject" THEN 0 ELSE 2
 ===================================================================================
